@@ -28,6 +28,7 @@ ASSUMPTIONS = [
     "modules import cleanly and have no side effects besides definitions",
 ]
 NSHARDS = {'quick': 16, 'thorough': 16}
+RULE += (' Module features added during the build: definitions re-wrapped by assignment, class-private methods, decorators older than functools.wraps, aliased imports from a sibling; every seventh module is the __main__.py of a package whose __init__.py has a doctest of its own.')
 STYLES = ['google', 'freeform', 'auto']
 
 
